@@ -24,7 +24,7 @@ MANIFEST = dict(
          "with the reference semantics whenever the most recent sort in effect is total; (iii) every call of fold_sql_transforms and "
          "every ctes_sorting insert made while compiling a corpus is recorded (cargo feature verif) and replayed through the mirror - "
          "output transforms, emitted Sorts, widened Select, final sorting and flag must agree exactly; (iv) every call of Flattener::fold is "
-         "recorded and replayed through Model.Flatten (kind, partition, frame and sort of every flattened transform call).",
+         "recorded and replayed through Model.Flatten (kind, partition, frame and sort of every flattened transform call); (v) sort x join side (inner / left / right / full) x tail x let boundary: the bag of rows vs rows computed from the tables, and the rows that stem from the left input must be in the order of the sort (the position of the padded rows of right / full joins is left open).",
     note="alias_last_sorting and the lowering of the Flattener's sort fields into RQ (lower_sorts) are not mirrored; they are covered by the sequence comparison "
          "only. The order of rows with equal sort keys is unspecified in SQL: such cases are compared as bags, and takes over ties are excluded.",
     technique="Lean 4 proofs (take composition, sort algebra, sorting-inference state machine = declarative sort in effect) + LIMIT/OFFSET correspondence + replay of "
